@@ -24,7 +24,7 @@ Record run_obs := {
 
 Record ocase := {
   oc_pkg : pkg_spec; oc_flags : ctor_flags; oc_name : ident; oc_fuel : nat;
-  oc_status : N;                        (* as o_status of CtorCorr *)
+  oc_status : N;                        (* as o_status of CtorCorr (0..6) *)
   oc_options : list (string * string);  (* option functions of T: (name, parameter type) *)
   oc_has_setdefault : bool;             (* *T has a method SetDefault *)
   oc_args : list string;                (* tokens of the sentinels given to NewT (entry 0) *)
@@ -61,7 +61,7 @@ Definition start_value (c : ocase) (sd : sdecl) (nd : new_data) (entry : N) : re
 
 Definition model_run (c : ocase) (sd : sdecl) (nd : new_data) (od : opt_data) (r : run_obs) : res val :=
   let opts := opts_of (r_fields r) 0 in
-  if N.eqb (r_entry r) 2 then new_with (oc_pkg c) (oc_fuel c) sd od (od_has_default od) opts
+  if N.eqb (r_entry r) 2 then new_with_real (oc_pkg c) (oc_flags c) (oc_fuel c) sd opts
   else bind (start_value c sd nd (r_entry r)) (fun v => with_ (oc_pkg c) (oc_fuel c) sd od v opts).
 
 Definition leaves (c : ocase) (sd : sdecl) : list path := leaf_paths (oc_pkg c) (oc_fuel c) (self_inst sd) [].
@@ -84,7 +84,7 @@ Definition agree_opt (c : ocase) (sd : sdecl) : bool :=
   match opt_of (oc_pkg c) (oc_flags c) (oc_fuel c) sd with
   | COk (nd, od) =>
       N.eqb (oc_status c) 0 && options_agree od (oc_options c) &&
-      Bool.eqb (od_has_default od) (oc_has_setdefault c) &&
+      Bool.eqb (is_some (setdefault_target (oc_pkg c) (oc_fuel c) sd)) (oc_has_setdefault c) &&
       forallb (run_agrees c sd nd od) (oc_runs c)
   | CFatal _ => N.eqb (oc_status c) 1
   | COutOfFuel => N.eqb (oc_status c) 2
@@ -117,7 +117,7 @@ Definition run_hits_nil (c : ocase) (sd : sdecl) (r : run_obs) : bool :=
           (leaves c sd).
 
 Definition Pb_run (c : ocase) (sd : sdecl) (r : run_obs) : bool :=
-  if run_hits_nil c sd r then true else
+  if run_hits_nil c sd r then r_panic r else
   negb (r_panic r) &&
   Nat.eqb (length (r_after r)) (length (leaves c sd)) &&
   forallb (fun q =>
@@ -154,16 +154,23 @@ Definition Pb_opt (c : ocase) (sd : sdecl) : bool :=
   N.eqb (oc_status c) 0 && Pb_options c sd && forallb (Pb_run c sd) (oc_runs c).
 
 (* verdicts as in CtorCorr: 0 agree and the property holds; 1 model and implementation
-   differ; 2 inside the guard and the property fails on the observation; 3 outside the
-   guard (input class of an open finding) or not observed; 4 harness error *)
+   differ (inside or outside the guard); 2 inside the guard and the property fails on the
+   observation (status 6 = output missing fails it); 3 outside the guard (input class of an open
+   finding), compared with the literal model unless its output does not compile; 4 harness
+   error; 5 inside the guard but not observable because a sibling type's output does not compile *)
+Definition runs_not_evaluated (c : ocase) : nat :=
+  match find_struct (oc_pkg c) "" (oc_name c) with
+  | None => 0
+  | Some sd => length (filter (run_hits_nil c sd) (oc_runs c))
+  end.
 Definition overdict (c : ocase) : N :=
   match find_struct (oc_pkg c) "" (oc_name c) with
   | None => 4%N
   | Some sd =>
-      if N.eqb (oc_status c) 5 then 3%N
-      else if c13_guard (fl_short (oc_flags c)) (oc_pkg c) (oc_fuel c) sd then
-        if Pb_opt c sd then (if agree_opt c sd then 0%N else 1%N) else 2%N
-      else 3%N
+      if c13_guard (fl_short (oc_flags c)) (oc_pkg c) (oc_fuel c) sd then
+        if N.eqb (oc_status c) 5 then 5%N
+        else if Pb_opt c sd then (if agree_opt c sd then 0%N else 1%N) else 2%N
+      else if N.eqb (oc_status c) 3 || N.eqb (oc_status c) 5 || agree_opt c sd then 3%N else 1%N
   end.
 
 Fixpoint omismatches_from (i : N) (cs : list ocase) : list (N * N) :=
